@@ -1,6 +1,8 @@
 import Proofs.OalLex
 import Proofs.OalParseCase
+import Proofs.OalBridge
 import PyxModel.Oal.LexGen
+import Gen.OalPrec
 
 /-!
   C08 — OAL keywords are case-insensitive in parsing, execution and prebuild.
@@ -91,9 +93,14 @@ theorem norm_case_idempotent (cfg : LexCfg) (t : Tok) : normTok cfg (normTok cfg
 
 /-- consumers_normalise: every place in interpret.py / prebuild.py / the `many` accessors of oal.py that reads
     `node.cardinality`, `node.operator` or a BooleanNode's `node.value` reads it through `.lower()` / `.upper()`
-    (or through the normalising accessor `node.many`) -/
+    (or through the normalising accessor `node.many`); every place that reads an instance-name field the grammar
+    may fill with the keyword `self` in its source spelling (from_/to_/using_variable_name of relate / unrelate,
+    variable_name of delete - the fourth spelling-carrying field) hands it to a `find_symbol` that maps every
+    spelling of `self` to the instance.  The translator refuses to emit the table when one of the expected readers
+    (gen_oallex.REQUIRED: operator / boolean / cardinality / instance-name readers of both interpret.py and
+    prebuild.py) is missing. -/
 theorem consumers_normalise :
-    (Gen.OalLex.consumers.all fun c => c.normalised) = true ∧ Gen.OalLex.consumers.length ≥ 8 := by decide
+    (Gen.OalLex.consumers.all fun c => c.normalised) = true ∧ Gen.OalLex.consumers.length ≥ 30 := by decide
 
 /-! non-vacuity -/
 
@@ -134,5 +141,48 @@ theorem parser_case_natural (t : Pyx.Oal.Tbl) (g : Pyx.Oal.Kind → String → S
     (ts : List Pyx.Oal.Tok) :
     Pyx.Oal.parseStmts t (ts.map (Pyx.Oal.mapTok g)) = (Pyx.Oal.parseStmts t ts).map (Pyx.Oal.Block.mapKw g) :=
   Pyx.Oal.parseStmts_mapTok t g hg ts
+
+
+/-- concrete instance next to the parser-level theorems: the two spellings of one statement list are a
+    `Respelling`, both parse (generated precedence table), and to trees that differ exactly in the recorded
+    spellings -/
+example :
+    (Pyx.Oal.parseStmts Pyx.Gen.OalPrec.table (Pyx.OalLex.toParserToks (lex lowerText))).isSome = true ∧
+    (Pyx.Oal.parseStmts Pyx.Gen.OalPrec.table (Pyx.OalLex.toParserToks (lex mixedText))).isSome = true ∧
+    (Pyx.OalLex.toParserToks (lex mixedText)).map (·.lex) ≠ (Pyx.OalLex.toParserToks (lex lowerText)).map (·.lex) := by
+  decide +kernel
+
+example :
+    (Pyx.Oal.parseStmts Pyx.Gen.OalPrec.table (Pyx.OalLex.toParserToks (lex mixedText))).map Pyx.Oal.normCase =
+      (Pyx.Oal.parseStmts Pyx.Gen.OalPrec.table (Pyx.OalLex.toParserToks (lex lowerText))).map Pyx.Oal.normCase :=
+  (Pyx.OalLex.text_case_of_lex _ lowerText mixedText (by decide +kernel)).1
+
+/-! ## lexer half and parser half composed (Proofs/OalBridge.lean) -/
+
+/-- kw_tables_agree: the parser model's hand-written `Kind.isKeyword` and the keyword table generated from oal.py
+    (`isKwKind Gen.OalLex.cfg`: keywords ∪ END_FOR / END_IF / END_WHILE) agree on every token kind -/
+theorem kw_tables_agree :
+    (Pyx.OalLex.kindNames.all fun p => p.1.isKeyword == isKwKind Gen.OalLex.cfg p.2) = true :=
+  Pyx.OalLex.kw_tables_agree
+
+/-- every token type the generated lexer table can return has a parser token kind -/
+theorem lexer_kinds_covered :
+    ((Gen.OalLex.rules.filter (·.returnsTok)).all fun r => (Pyx.OalLex.kindOfChars r.name).isSome) = true ∧
+    (Gen.OalLex.keywords.all fun k => (Pyx.OalLex.kindOfChars k).isSome) = true :=
+  Pyx.OalLex.lexer_kinds_covered
+
+/-- text_case: two TEXTS that differ only in the letter case of keyword occurrences (same characters up to ASCII
+    case, every non-keyword token untouched) - lexed by the character-level lexer model of the generated rule table,
+    converted, parsed by the token-level parser model under any precedence table - give trees that are equal
+    after lower-casing the spelling-carrying fields, and one text is rejected exactly when the other is -/
+theorem text_case (tbl : Pyx.Oal.Tbl) (text text' : List Char)
+    (hcase : text'.map lowerAscii = text.map lowerAscii)
+    (hid : ∀ u ∈ lex text, isKwKind Gen.OalLex.cfg u.kind = false →
+      slice text' u.start u.stop = slice text u.start u.stop) :
+    (Pyx.Oal.parseStmts tbl (Pyx.OalLex.toParserToks (lex text'))).map Pyx.Oal.normCase =
+      (Pyx.Oal.parseStmts tbl (Pyx.OalLex.toParserToks (lex text))).map Pyx.Oal.normCase ∧
+    (Pyx.Oal.parseStmts tbl (Pyx.OalLex.toParserToks (lex text')) = none ↔
+      Pyx.Oal.parseStmts tbl (Pyx.OalLex.toParserToks (lex text)) = none) :=
+  Pyx.OalLex.text_case_of_lex tbl text text' (lex_case text text' hcase hid)
 
 end PyxProps.C08
